@@ -78,7 +78,29 @@ func run[K comparable](r *engine.Rec, c *cfg[K]) {
 		return col.Association[K, string](common.N()).Make(k, v)
 	}
 	s := &seqx.Search[Op]{Name: name, MaxSize: c.maxSize}
-	s.Inits = []Op{{K: "Make"}, {K: "MakeFromArray", Ks: []int{1, 0, 1}}, {K: "MakeFromSequence", Ks: []int{2, 2, 0}}, {K: "MakeFromArray"},
+	// guards: what was handed to a constructor must stay independent of the catalog
+	var guardAssocs []col.AssociationLike[K, string]
+	var guardVals []string
+	var guardSrc any
+	var guardDump string
+	gk := func() string {
+		if guardAssocs != nil || guardSrc != nil {
+			return "guarded:"
+		}
+		return ""
+	}
+	guardBroken := func() string {
+		for i, a := range guardAssocs {
+			if a.GetValue() != guardVals[i] {
+				return fmt.Sprintf("the caller's association %v now has value %q (was %q)", a.GetKey(), a.GetValue(), guardVals[i])
+			}
+		}
+		if guardSrc != nil && dump.Dump(guardSrc) != guardDump {
+			return "the source catalog changed"
+		}
+		return ""
+	}
+	s.Inits = []Op{{K: "Make"}, {K: "MakeFromCatalog", Ks: []int{1, 0}}, {K: "MakeFromCatalog", Ks: []int{2}}, {K: "MakeFromArray", Ks: []int{1, 0, 1}}, {K: "MakeFromSequence", Ks: []int{2, 2, 0}}, {K: "MakeFromArray"},
 		{K: "MakeFromMap", Ks: []int{1}}, {K: "MakeFromMap"}, {K: "MakeFromMapLeaf", Ks: []int{0, 1, 2}}}
 	s.Ops = func(n int) []Op {
 		var ops []Op
@@ -120,16 +142,30 @@ func run[K comparable](r *engine.Rec, c *cfg[K]) {
 				m = append(m, pair[K]{k, v})
 			}
 		}
+		guardAssocs, guardVals, guardSrc, guardDump = nil, nil, nil, ""
 		out = rt.Protect(fuel, func() {
 			switch op.K {
 			case "Make":
 				cat = C().Make()
+			case "MakeFromCatalog":
+				src := C().Make()
+				for i, ki := range op.Ks {
+					v := vals[i%len(vals)]
+					src.SetValue(c.keys[ki], v)
+					set(c.keys[ki], v)
+				}
+				cat = C().MakeFromSequence(src)
+				guardSrc, guardDump = src, dump.Dump(src)
 			case "MakeFromArray", "MakeFromSequence":
 				var as []col.AssociationLike[K, string]
 				for i, ki := range op.Ks {
 					v := vals[i%len(vals)]
 					as = append(as, A(c.keys[ki], v))
 					set(c.keys[ki], v)
+				}
+				for _, a := range as {
+					guardAssocs = append(guardAssocs, a)
+					guardVals = append(guardVals, a.GetValue())
 				}
 				if op.K == "MakeFromArray" {
 					cat = C().MakeFromArray(as)
@@ -340,7 +376,10 @@ func run[K comparable](r *engine.Rec, c *cfg[K]) {
 			if why := coherent(cat); why != "" {
 				return viol("constructor "+op.K+": key index and order diverge", why)
 			}
-			return seqx.Step{Key: dump.Dump(cat), Size: len(m), Expand: op.K != "MakeFromMapLeaf"}
+			if why := guardBroken(); why != "" {
+				return viol("constructor "+op.K+" writes into what it was given", why)
+			}
+			return seqx.Step{Key: gk() + dump.Dump(cat), Size: len(m), Expand: op.K != "MakeFromMapLeaf"}
 		}
 		cat, m, out := build(path[0])
 		if out.Panicked {
@@ -429,10 +468,13 @@ func run[K comparable](r *engine.Rec, c *cfg[K]) {
 				return viol("GetValue disagrees with the array view after "+op.K, fmt.Sprintf("key %v: %q want %q; %v", k, cat.GetValue(k), want, e.m))
 			}
 		}
+		if why := guardBroken(); why != "" {
+			return viol(op.K+" on a catalog changes what its constructor was given (shared association objects)", why)
+		}
 		if len(r.Samples) < 2 && len(path) >= 3 {
 			r.Sample(map[string]any{"search": name, "path": fmt.Sprintf("%+v", path), "op": fmt.Sprintf("%+v", op), "after": fmt.Sprint(e.m)})
 		}
-		return seqx.Step{Key: after, Size: len(e.m), Expand: true}
+		return seqx.Step{Key: gk() + after, Size: len(e.m), Expand: true}
 	}
 	s.Run(r)
 }
